@@ -19,7 +19,7 @@ func specWeight(a zipgen.Archive) int {
 	for _, m := range a.Members {
 		w += m.Weight()
 	}
-	for _, b := range []bool{a.EOCDComment != 0, a.ForceZip64 != 0, a.CDOrder != 0, a.GapBetween, a.GapBeforeCD} {
+	for _, b := range []bool{a.EOCDComment != 0, a.ForceZip64 != 0, a.CDOrder != 0, a.GapBetween, a.GapBeforeCD, a.Prefix != 0} {
 		if b {
 			w++
 		}
@@ -30,7 +30,7 @@ func specWeight(a zipgen.Archive) int {
 // specRank orders specs of equal weight: smaller feature values first, so that
 // equivalent shapes reduce to one canonical representative.
 func specRank(a zipgen.Archive) int {
-	r := specWeight(a)*1000 + a.CDOrder + a.ForceZip64
+	r := specWeight(a)*1000 + a.CDOrder + a.ForceZip64 + a.Prefix
 	for _, m := range a.Members {
 		r += m.Desc + m.Zip64 + m.Extra + m.Name
 		switch {
@@ -80,6 +80,9 @@ func covers(cause, spec zipgen.Archive) bool {
 		return false
 	}
 	if (cause.GapBetween && !spec.GapBetween) || (cause.GapBeforeCD && !spec.GapBeforeCD) {
+		return false
+	}
+	if cause.Prefix != 0 && spec.Prefix != cause.Prefix {
 		return false
 	}
 	if len(cause.Members) == 0 {
@@ -145,6 +148,11 @@ func reductions(a zipgen.Archive) []zipgen.Archive {
 	if a.GapBeforeCD {
 		b := cloneSpec(a)
 		b.GapBeforeCD = false
+		out = append(out, b)
+	}
+	if a.Prefix != 0 {
+		b := cloneSpec(a)
+		b.Prefix = 0
 		out = append(out, b)
 	}
 	d := zipgen.DefaultMember()
